@@ -54,4 +54,35 @@ pub proof fn lemma_tokb_partition_bridge(b: &[u8], toks: Seq<&[u8]>)
     lemma_tokb_cat_bridge(toks);
 }
 
+// The trait-level clause of `DiffableStr` (diffablestr.rs) `tokens_partition(self.bytes(), Seq::new(n, |i| res@[i].bytes()))`
+// is derived from these two lemmas INSIDE the impl methods (one extensional-equality assertion each): a lemma that names
+// `toks::<str>` or `<str as DiffableStr>::bytes` cannot be called from a method of `impl DiffableStr for str` (Verus: cyclic
+// self-reference impl -> method -> lemma -> impl).
+
+// tokenize_chars (ASSUMED contract, real body under external_body): the shape clause `chars_spec` / `bchars_spec` (one
+// token per char) is the whole content of the assumption - the other two trait-level clauses (partition, non-empty) follow
+// from it, with the cut points 0, 1, .., n:
+
+pub proof fn lemma_tok_chars_partition(s: &str, r: Seq<&str>)
+  requires chars_spec(s, r)
+  ensures cat_bytes(r) == s.spec_bytes(), forall|k: int| 0 <= k < r.len() ==> (#[trigger] r[k]).spec_bytes().len() > 0,
+      tokens_partition(s.spec_bytes(), str_tok_bytes(r))
+{
+    let c = Seq::new(r.len() + 1, |i: int| i);
+    assert(partition(s, r, c));
+    lemma_tok_partition_concat(s, r, c);
+    lemma_tok_partition_bridge(s, r);
+}
+
+pub proof fn lemma_tokb_chars_partition(b: &[u8], r: Seq<&[u8]>)
+  requires bchars_spec(b@, r)
+  ensures bcat(r) == b@, forall|k: int| 0 <= k < r.len() ==> (#[trigger] r[k])@.len() > 0,
+      tokens_partition(b@, u8_tok_bytes(r))
+{
+    let c = Seq::new(r.len() + 1, |i: int| i);
+    assert(bpartition(b@, r, c));
+    lemma_tokb_partition_concat(b@, r, c);
+    lemma_tokb_partition_bridge(b, r);
+}
+
 } // verus!
